@@ -381,10 +381,19 @@ impl Hypercore {
         final(self).oplog == old(self).oplog, final(self).skip_flush_count == old(self).skip_flush_count,
         final(self).storage.journal@ == old(self).storage.journal@,
         final(self).storage.failed@ ==> r is Err,
-        r is Ok ==> index < old(self).tree.length && r->Ok_0.index == blk_off(index as int) && r->Ok_0.index + r->Ok_0.length == blk_off(index + 1)
+        r is Ok ==> index < old(self).tree.length && r->Ok_0.index == blk_off(index as int) && r->Ok_0.index + r->Ok_0.length == blk_off(index + 1),
+        // looking up a byte range reads the tree store only
+        r is Ok ==> tree_reads_only(old(self).storage.reads@, final(self).storage.reads@)
     sub `infos\.extend\(self\.storage\.read_infos_to_vec\(&instructions\)\?\);` => `vp_extend(&mut infos, self.storage.read_infos_to_vec(&instructions)?);`
+    first:
+        proof { lemma_tree_reads_refl(self.storage.reads@); }
+    before `vp_extend(&mut infos, self.storage.read_infos_to_vec(&instructions)?);`:
+        let ghost rd0 = self.storage.reads@;
+    after `vp_extend(&mut infos, self.storage.read_infos_to_vec(&instructions)?);`:
+        proof { lemma_tree_reads_ext(old(self).storage.reads@, rd0, instructions@); }
     loop 1:
         invariant
+            tree_reads_only(old(self).storage.reads@, self.storage.reads@),
             !self.storage.failed@, tree_instr(instructions@),
             self.same_view(old(self)), self.bitfield == old(self).bitfield, self.tree == old(self).tree,
             self.oplog == old(self).oplog, self.skip_flush_count == old(self).skip_flush_count,
@@ -408,8 +417,10 @@ impl Hypercore {
         // a held block: no event; the data file is read at the block's byte range
         old(self).bitfield.bit(index as int) ==> final(self).events.trace@ == old(self).events.trace@,
         old(self).bitfield.bit(index as int) && r is Ok ==> r->Ok_0 is Some
-            // an empty block needs no read (its offset may lie beyond a truncated data file); any other block is read at its offset
-            && (blk_off(index + 1) == blk_off(index as int) ==> r->Ok_0->Some_0@.len() == 0)
+            // C01: an empty block is returned without touching the data store (its offset may lie beyond the end of a data file
+            // that a clear has truncated, where even a zero-length read fails); any other block is read at its offset
+            && (blk_off(index + 1) == blk_off(index as int) ==> r->Ok_0->Some_0@.len() == 0
+                    && tree_reads_only(old(self).storage.reads@, final(self).storage.reads@))
             && (blk_off(index + 1) > blk_off(index as int) ==> final(self).storage.reads@.len() > 0
                     && final(self).storage.reads@.last() == (Store::Data, blk_off(index as int))),
         // C10
